@@ -149,6 +149,10 @@ theorem import_alias_no_panic {unv full nm : String → String} {rs : List Req} 
 theorem import_alias_panic_witness :
     run id id [] [⟨"strings", "x/v2"⟩, ⟨"strings", "strings"⟩] = none := by decide
 
+/-- non-vacuity of `import_alias_no_panic`: two packages named b, no clash, third request does not panic -/
+example : newImport id (fun p => if p = "y/b" then "y_b" else p) [("b", "x/b")] ⟨"b", "y/b"⟩ =
+    some ([("b", "x/b"), ("y_b", "y/b")], "y_b") := by decide
+
 /-! 4. printer.go:Out — `if len(p.indent) > 0 { … } else { panic }`: unreachable iff every emitter calls Out
 no more often than In on every prefix of its execution. Not proved for the 33 emitters (tie: every corpus of
 every check runs them; a violation shows as `panic:` in the C09 stream). The counter itself: -/
@@ -189,10 +193,12 @@ theorem generating_registered_no_panic {Ty : Type} (ident assign : List Ty → L
     (hm : ts ∈ tm.typss) : (nameOf ident assign tm ts).isSome :=
   nameOf_registered ident assign tm hl hrefl hm
 
-/-- The name it finds need NOT be the one registered for ts: a plugin that calls `Generating` on the
-UNDERLYING type (keys, …) gets, for two named types over one underlying type, the first one's name twice —
-the second is never marked generated and pkg.Generate loops forever. Reproduced on the real binary by the
-black-box part (family twins): a genuine defect. Types: 0 = map[string]int, 1 = M1, 2 = M2. -/
+/-- The name found for a type list that is only ASSIGNABLE to registered ones is the first such entry's: a
+plugin that called `Generating` on the UNDERLYING type (keys did) got, for two named types over one underlying
+type, the first one's name twice — the second was never marked generated and pkg.Generate looped forever,
+re-emitting the first function until memory ran out. Found by the black-box part of this check (family
+twins) and repaired in /repo by a35d9db (keys marks the registered type) and 88b6e50 (the work list marks the
+entry it hands out); the family stays in the stream. Types: 0 = map[string]int, 1 = M1, 2 = M2. -/
 theorem generating_underlying_marks_first_twin_only :
     let ident : List Nat → List Nat → Bool := fun a b => a == b
     let assign : List Nat → List Nat → Bool := fun a b => a == b || a == [0] || b == [0]
